@@ -45,6 +45,43 @@ def write_file(state, text):
     return p
 
 
+def build_sp(SP, text, state):
+    """SequenceParameters from a string; '@withfile' also hands a sequenceFile (of another sequence), '@seqobj:<kind>' an empty / false
+    SeqObj - neither is used when a string is given"""
+    kw = {}
+    pos = [text]
+    for f in real.FLAGS:
+        if f == "@withfile":
+            path = write_file(state, ">other\nGGGGSSSSGGGGSSSS\n")
+            if len(text) % 2:
+                pos.append(path)
+            else:
+                kw["sequenceFile"] = path
+        elif f.startswith("@seqobj:"):
+            kw["SeqObj"] = {"empty": "", "false": False, "zero": 0, "tuple": (), "list": [], "none": None}[f.split(":", 1)[1]]
+    if "SeqObj" in kw and len(pos) == 1 and len(text) % 3 == 0:
+        return SP(text, "", kw["SeqObj"])
+    return SP(*pos, **kw)
+
+
+def _same_answer(a, b):
+    if a[0] != b[0]:
+        return False
+    if a[0] == "exc":
+        return a[1] == b[1]
+    if a[0] == "num":
+        return a[1] == b[1] or abs(a[1] - b[1]) <= 1e-12 * max(1.0, abs(a[1]), abs(b[1])) or (a[1] != a[1] and b[1] != b[1])
+    if a[0] == "perm":
+        return abs(a[1] - b[1]) <= 1e-12 and a[2] == b[2]
+    if a[0] == "mat":
+        try:
+            import numpy as np
+            return np.allclose(np.array(a[1], dtype=float), np.array(b[1], dtype=float), rtol=1e-12, atol=1e-12, equal_nan=True)
+        except Exception:
+            return a == b
+    return a == b
+
+
 def eval_ext(toks, state):
     SP = real.SP()
     op = toks[0]
@@ -53,7 +90,7 @@ def eval_ext(toks, state):
         return ("none",)
     if op == "mk":
         text = real.unhex6(toks[1]) if len(toks) > 1 else ""
-        return real.query(SP(text), "seq", [])
+        return real.query(build_sp(SP, text, state), "seq", [])
     if op == "mkcwd":
         # mkcwd <hex raw> <query...>: construct from the raw string while the current directory contains a FILE and a DIRECTORY-free
         # namesake of that string (and of its upper-cased form)
@@ -83,10 +120,13 @@ def eval_ext(toks, state):
         v = OTHERS[toks[1]]
         return real.query(SP(v() if callable(v) and not isinstance(v, StrLike) else v), "seq", [])
     if op == "mkq":
-        return real.query(SP(real.unhex6(toks[1])), toks[2], toks[3:])
+        return real.query(build_sp(SP, real.unhex6(toks[1]), state), toks[2], toks[3:])
     if op == "parse":
         from localcider.backend.seqfileparser import SequenceFileParser
         text = real.unhex6(toks[1]) if len(toks) > 1 else ""
+        if "@silent" in real.FLAGS:
+            return ("str", SequenceFileParser().parseSeqFile(write_file(state, text), silent=True) if len(text) % 2 else
+                    SequenceFileParser().parseSeqFile(write_file(state, text), True))
         return ("str", SequenceFileParser().parseSeqFile(write_file(state, text)))
     if op == "childq":
         # childq <how> SEQ [i j] <query> [args]: the query is put to an object that was NOT built from a string but handed back by a
@@ -131,6 +171,23 @@ def eval_ext(toks, state):
                     return ("exc", "Inconsistent", "frozen residue moved")
             elif how == "backendshuffle":
                 child, rest = SP(SeqObj=Sequence(seq).full_shuffle()), toks[3:]
+            elif how in ("blockswap", "cluster"):
+                par = Sequence(seq)
+                if toks[3] == "warm":
+                    par.deltaMax()
+                try:
+                    moved = par.permute_block_swap()
+                except Exception:
+                    moved = par.full_shuffle()      # (no block swap changes delta for this parent: the move gives up after 100 tries)
+                child = SP(SeqObj=moved)
+                rest = toks[4:]
+            elif how == "permshuffle":
+                # the parent was asked for its delta-max ARRANGEMENT first
+                parent = SP(seq)
+                parent.get_deltaMax(True)
+                child, rest = parent.get_shuffled_sequence(), toks[3:]
+                if child is parent or child.SeqObj is parent.SeqObj:
+                    return ("exc", "Inconsistent", "get_shuffled_sequence handed back the object it was called on")
             elif how == "permutant":
                 from localcider.sequencePermutants import SequencePermutants
                 child, rest = SequencePermutants(seq).get_permutant(), toks[3:]
@@ -138,7 +195,14 @@ def eval_ext(toks, state):
                 raise KeyError(how)
         if sorted(child.get_sequence()) != sorted(seq):
             return ("exc", "Inconsistent", "the object handed back holds %s, not a rearrangement of %s" % (child.get_sequence(), seq))
-        return ("childq", child.get_sequence(), " ".join(rest), real.query(child, rest[0], rest[1:]))
+        ans = real.query(child, rest[0], rest[1:])
+        # model-free: the object answers exactly like one freshly built from the sequence it holds (asked the same way)
+        if rest[0] not in ("getphos", "phosseq", "kappaphos", "phosdist", "html"):
+            fresh = real.query(SP(child.get_sequence()), rest[0], rest[1:])
+            if not _same_answer(ans, fresh):
+                return ("exc", "Inconsistent", "the object obtained by %s answers %s -> %s, a fresh object holding the same sequence %s answers %s" % (
+                    how, " ".join(rest), str(ans)[:120], child.get_sequence(), str(fresh)[:120]))
+        return ("childq", child.get_sequence(), " ".join(rest), ans)
     if op == "parse2":
         # one parser object reused for every parse2 line of the block (parsing must not depend on earlier files)
         from localcider.backend.seqfileparser import SequenceFileParser
